@@ -70,12 +70,16 @@ def run_model(tmp, cfg, sim, pos2, idx):
     return tlc.run_tlc(mod, f"{mod}_mc.cfg", spec_dir=tmp, workers=1, timeout=1500)
 
 
-def make_sim(sim0, case, q, inten):
+def make_sim(sim0, case, q, inten, reverse_modes=False):
+    """reverse_modes: the incoherent modes are handed to the probe setter weakest first (the sum of the mode
+    intensities - all the data see - does not depend on the order the modes are installed in)."""
     sim = dict(sim0)
     ns, ny, nx = case["ns"], case["ny"], case["nx"]
     pot = np.array(q, dtype=float).reshape(ns, ny, nx) * (np.pi / 2)
     probe = np.array(case["probe"], dtype=float)              # (nm, ry, rx, 2)
     probe = probe[..., 0] + 1j * probe[..., 1]
+    if reverse_modes:
+        probe = probe[::-1].copy()
     gy, gx = sim0["intensities"].shape[:2]
     I = np.array(inten, dtype=np.float64).reshape(gy, gx, case["ry"], case["rx"]) / float(case["scale"])
     sim.update(potential=pot, obj=np.exp(1j * pot), probe=probe, intensities=I, num_probe_modes=case["nm"],
@@ -99,7 +103,7 @@ def run_group(arg):
             types = ("complex", "pure_phase", "potential")
             for ti, ot in enumerate(types if not quick else types[idx % 3: idx % 3 + 1]):
                 for pad in ((0, 0), (4, 8)) if (not quick or idx % 2) else ((0, 0),):
-                    sim = make_sim(sim0, base, base["q"], base["inten"])
+                    sim = make_sim(sim0, base, base["q"], base["inten"], reverse_modes=bool((idx + ti) % 2))
                     if edge and pad != (0, 0):
                         continue
                     p = tp.build(sim, obj_type=ot, obj_padding_px=pad, check=not edge)
